@@ -2,11 +2,16 @@
    ip n = inner product, nsq n = squared norm, zero_on n u = "u vanishes on the n coordinates").
    What _solve_max_point relies on: scipy stops where the gradient norm is below its tolerance.  These theorems say
    what such a point is FOR EVERY log-density with the stated concavity -- not only the quadratic ones of C15_optimiser_partial.
-   Still not proved (and the reason the MAP/ML clause stays partial): that scipy's iteration reaches such a point, that the
-   finite-difference gradient it may be given is the gradient, and concavity of a particular CUQIpy posterior. *)
+   C15_gauss_plus_concave_maximiser (round 5) removes the hypothesis "the gradient field is strongly monotone" for the posteriors the
+   optimiser route is used on: Gaussian likelihood with a log-concave prior.  There it is PROVED from the shape of the density
+   (exact second-order expansion of the quadratic part + first-order inequality of the concave part), and the curvature bound
+   A^T Pe A >= mu I is decided on the instance that runs by the model's checked certificate (check_opt_stop in Model/C15_MAP.v).
+   Still not proved (and the reason the MAP/ML clause stays partial): that scipy's iteration reaches a point passing its stopping
+   test (the harness checks on every optimiser cell that the point it returned passes it, with the model's exact gradient), and that the
+   finite-difference gradient it may be given is the gradient. *)
 From Coq Require Import Reals Lra.
 From Coquelicot Require Import Coquelicot.
-From CV Require Import Proofs.C15_Concave.
+From CV Require Import Proofs.C15_Concave Proofs.C15_StrongQ.
 Local Open Scope R_scope.
 
 (* concave differentiable log-density: the stationary points are exactly the global maximisers *)
@@ -43,3 +48,56 @@ Example C15_concave_example :
   zero_on 1 (ex_g ex_xs) /\
   (forall x, ip 1 (rsub (ex_g x) (ex_g ex_xs)) (rsub x ex_xs) <= - 2 * nsq 1 (rsub x ex_xs)).
 Proof. exact concave_example. Qed.
+
+(* Gaussian likelihood N(A x, Pe^-1) + log-concave prior exp(h) (h concave with (super)gradient gh and modulus mh >= 0 --
+   mh = 0 for merely log-concave priors, mh = lambda_min(Px) for a Gaussian prior), curvature A^T Pe A >= mu I, M = mu + mh > 0:
+   for every stationary point xs of the posterior log-density f = fpost (gradient g = gpost)
+     (1) f(y) <= f(xs) - M/2 |y - xs|^2 for every y: xs is a maximiser and every other point has a strictly smaller value;
+     (2) a point whose log-density is at least f(xs) is xs;
+     (3) M^2 |x - xs|^2 <= |g(x)|^2, and |g(x)| <= tol implies |x - xs| <= tol / M;
+     (4) sup f - f(x) <= |g(x)|^2 / (2 M);
+     (5) scipy's BFGS test max_i |g(x)_i| <= tol implies |x - xs| <= sqrt(n) tol / M;
+     (6) the gradient field is strongly monotone with modulus M (the hypothesis of C15_strongly_concave_distance, proved). *)
+Theorem C15_gauss_plus_concave_maximiser :
+  forall (m n : nat) (A Pe : rmat) (b : rvec) (h : rvec -> R) (gh : rvec -> rvec) (mu mh : R),
+  sym_on m Pe ->
+  (forall v, mu * nsq n v <= qf Pe m (mv A n v)) ->
+  (forall x y, h y <= h x + ip n (gh x) (rsub y x) - mh / 2 * nsq n (rsub y x)) ->
+  0 < mu + mh ->
+  forall xs, zero_on n (gpost m n A Pe b gh xs) ->
+  let f := fpost m n A Pe b h in let g := gpost m n A Pe b gh in let M := mu + mh in
+  ((forall y, f y <= f xs - M / 2 * nsq n (rsub y xs)) /\
+  (forall y, f xs <= f y -> zero_on n (rsub y xs)) /\
+  (forall x, M * M * nsq n (rsub x xs) <= nsq n (g x)) /\
+  (forall x tol, 0 <= tol -> sqrt (nsq n (g x)) <= tol -> sqrt (nsq n (rsub x xs)) <= tol / M) /\
+  (forall x, f xs - f x <= nsq n (g x) / (2 * M)) /\
+  (forall x tol, 0 <= tol -> (forall i, (i < n)%nat -> Rabs (g x i) <= tol) -> sqrt (nsq n (rsub x xs)) <= sqrt (INR n) * tol / M) /\
+  (forall x y, ip n (rsub (g x) (g y)) (rsub x y) <= - M * nsq n (rsub x y)))%type.
+Proof.
+  intros m n A Pe b h gh mu mh HP HC HH HM xs Hs f g M.
+  split; [exact (post_max m n A Pe b h gh mu mh HP HC HH xs Hs)|].
+  split; [exact (post_max_unique m n A Pe b h gh mu mh HP HC HH HM xs Hs)|].
+  split; [exact (post_sq m n A Pe b h gh mu mh HP HC HH HM xs Hs)|].
+  split; [exact (post_distance m n A Pe b h gh mu mh HP HC HH HM xs Hs)|].
+  split; [exact (post_gap m n A Pe b h gh mu mh HP HC HH HM xs)|].
+  split; [exact (post_distance_maxnorm m n A Pe b h gh mu mh HP HC HH HM xs Hs)|].
+  exact (post_monotone m n A Pe b h gh mu mh HP HC HH).
+Qed.
+Print Assumptions C15_gauss_plus_concave_maximiser.
+
+(* the pieces the theorem rests on, for the same f and g: the exact expansion of the Gaussian log-likelihood (so glik IS its
+   gradient and -A^T Pe A its Hessian) *)
+Theorem C15_loglik_expansion :
+  forall (m n : nat) (A Pe : rmat) (b : rvec), sym_on m Pe -> forall x y,
+  loglik m n A Pe b y = loglik m n A Pe b x + ip n (glik m n A Pe b x) (rsub y x) - 1 / 2 * qf Pe m (mv A n (rsub y x)).
+Proof. exact loglik_expansion. Qed.
+Print Assumptions C15_loglik_expansion.
+
+(* non-vacuity with a NON-quadratic log-concave prior: A = 1, Pe = 2, data 3, h(x) = -x^4, mu = 2, mh = 0, xs = 1 *)
+Example C15_gauss_plus_concave_example :
+  sym_on 1 exPe /\
+  (forall v, 2 * nsq 1 v <= qf exPe 1 (mv exA 1 v)) /\
+  (forall x y, exh y <= exh x + ip 1 (exgh x) (rsub y x) - 0 / 2 * nsq 1 (rsub y x)) /\
+  0 < 2 + 0 /\
+  zero_on 1 (gpost 1 1 exA exPe exb exgh exxs).
+Proof. exact strongq_example. Qed.
